@@ -163,7 +163,11 @@ void harness(void) {
                 VASSERT(st.programData.type == SCPI_TOKEN_ALL_PROGRAM_DATA, "C13 unit: data list recognised");
                 VASSERT(st.programData.ptr == start + dstart && st.programData.len == k - dstart, "C13 unit: data extent covers the whole list as written");
                 VASSERT(st.numberOfParameters == nparams, "C13 unit: number of data items");
+#if N >= 5
                 if (nparams >= 2) VWITNESS("two-parameters");
+#else
+                if (nparams >= 1) VWITNESS("one-parameter");
+#endif
             } else {
                 VASSERT(st.programData.type == SCPI_TOKEN_UNKNOWN && st.programData.len == 0, "C13 unit: no data list");
                 if (w > 0) VASSERT(st.numberOfParameters == -1, "C13 unit: a data list that is not well formed is reported as such");
